@@ -347,12 +347,22 @@ def cases(seed, tier):
     # a 3-junction, 2-alternative library (also run under the race detector in the quick tier)
     ohs = overhangs(r, 3)
     yield lig_case(r, "lib-3x2", with_flips(r, [(seqword(r, 2, 10), ohs[j], ohs[(j + 1) % 3]) for j in range(3) for _ in range(2)]))
-    # the largest library shape the property names
-    if not quick:
-        for _ in range(3):
-            ohs = overhangs(r, 6)
-            ring = [(seqword(r, 0, 8), ohs[j], ohs[(j + 1) % 6]) for j in range(6) for _ in range(3)]
-            yield lig_case(r, "design-6x3", with_flips(r, ring))
+    # the largest library shape the property names: 6 junctions x 3 alternatives (18 parts, 729 plasmids, 4374 partial
+    # constructs alive at once) — one through CircularLigate and one through GoldenGate in the quick tier, more in thorough
+    for _ in range(1 if quick else 3):
+        ohs = overhangs(r, 6)
+        ring = [(seqword(r, 0, 8), ohs[j], ohs[(j + 1) % 6]) for j in range(6) for _ in range(3)]
+        yield lig_case(r, "design-6x3", with_flips(r, ring))
+    made = 0
+    while made < (1 if quick else 2):
+        enz = r.choice(list(ENZ))
+        site = ENZ[enz][0]
+        ohs = overhangs(r, 6)
+        ring = [(seqword(r, 0, 8, (site, rc(site))), ohs[j], ohs[(j + 1) % 6]) for j in range(6) for _ in range(3)]
+        c = gg_case(r, "design-6x3", enz, ring, [], multi=0.3)
+        if c:
+            made += 1
+            yield c
     # --- cycles that exclude the seed: a tail leading into a cycle, plus chords
     for i in range(40 if quick else 400):
         m = r.randint(3, 7)
@@ -486,7 +496,7 @@ def extra_runs(seed, tier, case_lines):
     if tier == "quick":
         sub = r.sample(pick, min(40, len(pick))) + r.sample(small, min(20, len(small)))
         for g in ("1", "2", "16"):
-            yield ("gomaxprocs" + g, sub, {"GOMAXPROCS": g}, False)
+            yield ("gomaxprocs" + g, sub + by_tag("design-6x3"), {"GOMAXPROCS": g}, False)
         handful = by_tag("lib-3x2")[:1] + by_tag("backbone")[:1] + by_tag("cycle")[:1] + \
             [l for l in moderate if l.startswith("gg")][:2] + r.sample(small, min(2, len(small)))
         for g in ("1", "2", "16"):
@@ -494,9 +504,9 @@ def extra_runs(seed, tier, case_lines):
     else:
         sub = r.sample(pick, min(300, len(pick))) + r.sample(small, min(100, len(small)))
         for g in ("1", "2", "16"):
-            yield ("gomaxprocs" + g, sub * 3, {"GOMAXPROCS": g}, False)
+            yield ("gomaxprocs" + g, (sub + by_tag("design-6x3")) * 3, {"GOMAXPROCS": g}, False)
         rsub = by_tag("lib-3x2")[:1] + r.sample(moderate, min(60, len(moderate))) + r.sample(small, min(20, len(small)))
-        big = by_tag("design-6x3")
+        big = [l for l in by_tag("design-6x3") if l.startswith("lig")]
         for g in ("1", "2", "16"):
             yield ("race" + g, rsub * 20, race_env(g), True)
             yield ("race6x3-" + g, big * 2, race_env(g), True)
